@@ -27,6 +27,9 @@ def run(ctx, rep):
     N = ctx.n(300, 10000)
     for _ in range(N):
         names, rules = gen_rules(ctx.rng, ctx.rng.randint(1, 4))
+        for n in names:
+            if ctx.rng.random() < 0.3:      # substitution syntax inside the rule text (the text is echoed in messages)
+                rules[n] = ctx.rng.choice(["(%s) and not 'w':%%(k)s", "(%s) or k:%%(missing)s", "(%s) and not role:100%%%%"]) % rules[n]
         default = ctx.rng.choice([None, None, 'dflt'])
         if default:
             rules['dflt'] = ctx.rng.choice(['role:r0', '@', '!', 'not role:r1'])
@@ -47,7 +50,8 @@ def run(ctx, rep):
             elif rk < 0.8:
                 rule = 'unregistered_' + ctx.rng.choice(names)
             else:
-                rule = {'check': ctx.rng.choice(['role:r0', 'role:r1 and not role:r2', '@', '!', 'rule:n0']),
+                rule = {'check': ctx.rng.choice(['role:r0', 'role:r1 and not role:r2', '@', '!', 'rule:n0', "'v':%(k)s",
+                                                 "role:r0 and 'w':%(k)s", 'role:r1 or not role:50%%']),
                         'scope': ctx.rng.choice([None, None, ['project'], ['system']])}
             exc = ctx.rng.random() < 0.5
             base = {'rule': rule, 'target': {'k': 'v', 'nested': {'a': [1, 2]}}, 'creds': creds, 'exc': exc,
